@@ -4,7 +4,6 @@ import (
 	"archive/zip"
 	"encoding/xml"
 	"errors"
-	"io"
 	"path"
 	"strings"
 	"time"
@@ -101,7 +100,7 @@ func parseOPF(zr *zip.Reader, opfPath string) (*Package, string, error) {
 	}
 	defer rc.Close()
 
-	data, err := io.ReadAll(rc)
+	data, err := readPart(rc)
 	if err != nil {
 		return nil, "", err
 	}
